@@ -19,6 +19,11 @@ man = {
         {"name": "irx", "path": "tools/irx.cc", "serves_properties": sorted(CHECKS), "kind_free_text": "LLVM-14 IR fact extractor (C++), run on every unit recompiled from /repo's working tree"},
         {"name": "PathAI (E1)", "path": "lib/vf/pathai.py", "serves_properties": sorted(CHECKS), "kind_free_text": "path-sensitive abstract interpretation over the SSA CFG: symbolic terms, interval/zero facts, ordered effect events"},
         {"name": "callgraph/effects (E2)", "path": "lib/vf/callgraph.py", "serves_properties": sorted(CHECKS), "kind_free_text": "whole-library call graph with slot-resolved indirect calls, writer and global-store summaries"},
+        {"name": "taint (E3)", "path": "lib/vf/taint.py", "serves_properties": ["C11"], "kind_free_text": "interprocedural secret-taint analysis over all dispatch-slot combinations, contextual / full-object declassification"},
+        {"name": "hazard (E8) + SCEV coverage (E9)", "path": "lib/vf/hazard.py", "serves_properties": ["C05", "C09", "C13", "C14"], "kind_free_text": "read-after-write hazards with linear symbolic bases (walking pointers), callee extents; byte coverage of scan loops from scalar evolution"},
+        {"name": "bitflow (E11) / known-bits (E12)", "path": "lib/vf/bitflow.py", "serves_properties": ["C02", "C03", "C04", "C05", "C07", "C10", "C14", "C16"], "kind_free_text": "forward bit-mask influence analysis on -O2 IR; known-zero-bits abstract interpretation (dead carries, select idiom, or-packing)"},
+        {"name": "dead stores (E13), lane provenance (E14), stuck reads (E15), static state (E16)", "path": "lib/vf/lanes.py", "serves_properties": ["C02", "C04", "C05", "C16"], "kind_free_text": "overwritten-before-read stores on peeled paths; byte provenance through vector shuffles; loop-invariant input reads; writes to static storage"},
+        {"name": "asm string ops (E17), finite-domain evaluation (E18)", "path": "lib/vf/finite.py", "serves_properties": ["C03", "C15"], "kind_free_text": "rep stos/movs coverage in .S units; exact evaluation of branch-free single-block table functions over their finite input domain"},
     ],
     "checks": [],
     "not_applicable": [{"property_id": k, "reason": v} for k, v in sorted(NOT_APPLICABLE.items())],
